@@ -377,3 +377,73 @@ func ZZ_C04_par_twice() {
 	zz.Assert(err != nil, "par twice: the exchanged refresh token is exchanged at most once")
 	_ = resp
 }
+
+// ZZ_C04_used_token_elsewhere: between its exchange and its replay, a USED refresh token is shown to another
+// endpoint - introspected (either hint), or sent to the revocation endpoint by its owner or by another client.
+// None of that may make the server forget that the token was used: the replay is still recognised, every token
+// of the grant is inactive afterwards, the other grant is untouched.
+func ZZ_C04_used_token_elsewhere() {
+	s := &st{w: world.NewX(world.XOptions{Hybrid: true}), l: &world.Ledger{}, client: [2]string{"c1", "c2"}}
+	s.start(0, zz.Choice("origin", 2))
+	s.start(1, 0)
+	for i, n := 0, 1+zz.Choice("prefix", 2); i < n; i++ {
+		s.refresh(s.latestRefresh(0).Val, "c1")
+	}
+	// the used refresh tokens of grant 0
+	var used []*world.Tok
+	for _, t := range s.l.Toks {
+		if t.Grant == 0 && t.Use == fosite.RefreshToken && !t.Live {
+			used = append(used, t)
+		}
+	}
+	zz.Assume(len(used) > 0)
+	u := used[zz.Choice("used", len(used))]
+	switch zz.Choice("elsewhere", 5) {
+	case 0:
+		a, _ := s.w.Introspect(u.Val, fosite.RefreshToken)
+		zz.Assert(!a, "elsewhere: a used refresh token is inactive at introspection")
+		zz.Cover("elsewhere:introspected-as-refresh-token", true)
+	case 1:
+		a, _ := s.w.Introspect(u.Val, fosite.AccessToken)
+		zz.Assert(!a, "elsewhere: a used refresh token is inactive at introspection (access_token hint)")
+	case 2:
+		err := s.w.Revoke("c1", "", u.Val, "refresh_token")
+		zz.Observe("elsewhere.revoke.err", world.ErrName(err))
+		zz.Cover("elsewhere:sent-to-revocation-by-its-owner", true)
+	case 3:
+		err := s.w.Revoke("c1", "", u.Val, "")
+		zz.Observe("elsewhere.revoke.err", world.ErrName(err))
+	case 4:
+		err := s.w.Revoke("c2", "", u.Val, "refresh_token")
+		zz.Observe("elsewhere.revoke.err", world.ErrName(err))
+		zz.Cover("elsewhere:sent-to-revocation-by-another-client", true)
+	}
+	// what a revocation of a used token does to the rest of its grant is C08's subject; here: dead stays dead
+	for _, t := range s.l.Toks {
+		if !t.Live {
+			a, _ := s.w.Introspect(t.Val, t.Use)
+			zz.Assert(!a, "elsewhere: dead tokens stay inactive")
+		}
+	}
+	zz.Advance(time.Duration(zz.Int("advance", 0, int64(10*time.Minute))))
+	// the replay (the same used token, or another used one of the grant)
+	r := used[zz.Choice("replayed", len(used))]
+	_, err := s.w.Refresh("c1", r.Val)
+	zz.Observe("replay.err", world.ErrName(err))
+	zz.Assert(err != nil, "elsewhere: the used refresh token is refused")
+	for _, t := range s.l.Toks {
+		if t.Grant != 0 || !t.TE {
+			continue
+		}
+		a, _ := s.w.Introspect(t.Val, t.Use)
+		zz.Assert(!a, "elsewhere: after the replay of a used refresh token every token of the grant is inactive")
+	}
+	_, err = s.w.Refresh("c1", s.latestRefresh(0).Val)
+	zz.Assert(err != nil, "elsewhere: after the replay the newest refresh token is not exchanged any more")
+	for _, t := range s.l.Toks {
+		if t.Grant == 1 {
+			a, _ := s.w.Introspect(t.Val, t.Use)
+			zz.Assert(a, "elsewhere: tokens of the other grant are unaffected")
+		}
+	}
+}
